@@ -236,7 +236,7 @@ inductive InMsg
   | registered (req : ReqId) (reg : RegId)
   | unregistered (req : ReqId) (reg : Option RegId)
   | event (sub : SubId) (publication : Nat) (p : Payload)
-  | invocation (req : ReqId) (reg : RegId) (p : Payload) (receiveProgress : Bool)
+  | invocation (req : ReqId) (reg : RegId) (p : Payload) (receiveProgress : Option Bool)   -- the detail absent / true / false
   | interrupt (req : ReqId)
   | abort
   | challenge
@@ -1066,7 +1066,8 @@ def onEstablished (s : Sess) (beh : List HAct) : InMsg → Sess × List SOut
       | some r =>
         let s := s.setTbl k (adel id (s.tbl k))
         if s.called r.fut then (s, []) else settle s r.fut (.error uri (p.args.getD []) (p.kwargs.getD []))
-  | .invocation req reg p rp => onInvocation s beh req reg p rp
+  -- `if msg.receive_progress:` — only an explicit `true` asks for progressive results (absent and `false` do not)
+  | .invocation req reg p rp => onInvocation s beh req reg p (rp == some true)
   | .interrupt req =>
     -- `txaio.cancel(on_reply)`: a pending result is cancelled (its errback sends the ERROR); a completed one is not
     settleInv s req (.raised .cancelled)
